@@ -190,5 +190,10 @@ def clean_out_for(prop):
     os.makedirs(os.path.join(OUT, "violations"), exist_ok=True)
     for p in glob.glob(os.path.join(OUT, "violations", prop + "-*")):
         os.remove(p)
-    for p in glob.glob(os.path.join(tlc.SPEC, "_gen_*_%s_*.cfg" % prop)):
-        os.remove(p)
+    for p in glob.glob(os.path.join(tlc.SPEC, "_gen_*.cfg")):
+        # generated configs are removed by the run that wrote them; only stale leftovers (a killed run) are swept
+        try:
+            if time.time() - os.path.getmtime(p) > 6 * 3600:
+                os.remove(p)
+        except OSError:
+            pass
